@@ -16,9 +16,12 @@ PROVED = ['the log-linear interpolation behind every inserted node reproduces bo
           'for every well-formed input (given points strictly increasing in fraction and diameter, fractions in [0, B], the last given diameter not below the limit): every fraction lies in [0, max(B, 0.999)], i.e. inside [0,1) for B < 1',
           'for B < 0.999 and the last given diameter strictly above the limit: the diameters are strictly increasing along the fractions; no node lies below the limiting diameter; if the first remaining segment reaches the limit at a positive fraction X then (X, limit) is a node and no node lies left of it; the grading has AT LEAST THE REQUESTED NUMBER of nodes (any input length, any requested number >= 3: every inserted key is new and points_left x (between + 1) >= num_fracs - 1 with the rounded-up quotient); every given point from the upper end of the first remaining segment onwards is a node, i.e. reproduced exactly (invariants carried through the skip, the segment loop, the subdivision loop and the extrapolated top node)',
           'corollary for the grading the slurry object builds (D15 < D50 < D85 at 0.15 / 0.5 / 0.85, D85 above the limit): at least ten nodes, fractions strictly increasing in [0,1), diameters strictly increasing and never below the limit, D85 itself a node',
-          'get_dx rejects every fraction outside (0,1), returns the tabulated diameter at a tabulated fraction, and is the C18 lookup on (fraction, log10 d) in between']
+          'get_dx rejects every fraction outside (0,1), returns the tabulated diameter at a tabulated fraction, and is the C18 lookup on (fraction, log10 d) in between',
+          'reproduction by interpolation, one segment (C12_reproduction_between_nodes_partial, C12_start_node_on_line, C12_log10_pow10): log-linear interpolation between ANY two nodes the '
+          'discretiser puts on a segment returns the value of the segment\'s own log-line at every fraction - in particular exactly the given lower point, which is not a node - and the '
+          'start node (X, limit) lies on that line']
 HYPOTHESES = []
-MONITORED = ['global clauses on the whole output not yet proved (reproduction by interpolation of a given point that is not a node, i.e. the lower end of the first remaining segment) and, as a cross-check of the proved ones on doubles, ordering / range / start node - decided by the oracle on the implementation for every generated grading; '
+MONITORED = ['the lift of the one-segment reproduction theorem to the lookup over the whole sorted output (that the two neighbouring nodes found by the lookup are nodes of that segment) and, as a cross-check of the proved ones on doubles, ordering / range / start node - decided by the oracle on the implementation for every generated grading; '
              'floating-point rounding of 10**log10']
 RULE = ('(Dp, fluid, rhos) in E x D15<D50<D85 with ratios in (1.02, 6] incl. the band D15 just above the limit and near-uniform gradings (ratios 1.02-1.05), '
         'D50 from just above the limit to 0.25 Dp, through Slurry and through raw create_fracs with 3- and 4-point inputs (extra point at 0 or 0.05, finer or coarser than the limit); '
@@ -40,6 +43,10 @@ def gen_case(rng):
         p['r15'], p['r85'] = rng.uniform(1.021, 1.05), rng.uniform(1.021, 1.05)
     elif r < 0.4:
         p['D50'] = dl * rng.choice([1.0001, 1.0, 1.0, 1.0 + 1e-12])     # also EXACTLY on the limit (a boundary point of the envelope)
+    elif r < 0.5:
+        # coarse and broad: the property bounds D50 by 0.25 Dp and each ratio by 6, not D85 by the pipe - D85 (and the node extrapolated above it) may exceed Dp
+        p['D50'] = p['Dp'] * rng.uniform(0.1, 0.25)
+        p['r85'] = rng.choice([rng.uniform(3.0, 6.0), 6.0, 5.0, 4.0])
     pts = {0.15: p['D50'] / p['r15'], 0.5: p['D50'], 0.85: p['D50'] * p['r85']}
     kind = '3pt'
     r = rng.random()
